@@ -737,6 +737,25 @@ def mon05 (libs : List (String × Bytes)) : Monitor G14 where
         | _, _ => []) : Checks)
     | _, _, _ => []
 
+/-! #### C06: a failed request decides nothing -/
+
+/-- C06, the clauses that speak about the requests themselves: a failed patch check ends the update
+    with the check error before anything is downloaded; 'installed' is reported only if both the patch
+    check and the download succeeded; a check whose request failed answers false. -/
+def mon06 : Monitor G14 where
+  init := {}
+  next _ g op _ _ := { cfg := trackCfg g.cfg op }
+  checks _ g op _ post :=
+    match op, g.cfg, post.ret with
+    | .update _ sc, some _, .upd out =>
+      [ (sc.resp.isSome || (decide (out = UpdateOut.errCheck) && !post.net.any isDownload),
+          "C06: the patch check failed, yet the update did not stop with the check error before any download"),
+        (!decide (out = UpdateOut.installed) || (sc.resp.isSome && sc.dl.isSome),
+          "C06: the update reported 'installed' although the patch check or the download had failed") ]
+    | .check _ resp, some _, .bool b =>
+      [ (resp.isSome || !b, "C06: check_for_downloadable_update answered true although its request failed") ]
+    | _, _, _ => []
+
 /-! #### C12: the observed lock / network actions of every call are well-formed -/
 
 def sectionsAtomicB : List Act → Bool
